@@ -189,7 +189,7 @@ def case_dipole(case):
                 return None, [f"ValueError: {e}"[:60]]
         return vf, [str(x.message) for x in w]
     try:
-        for (vf, warns), pc, tr in c.explore(path, budget_s=2400,
+        for (vf, warns), pc, tr in c.explore(path, budget_s=3600,
                                              max_paths=8000):
             stats['paths'] += 1
             c.pc = pc
@@ -781,7 +781,14 @@ def main(tier):
                   ('g333', 'xy', (0, 0, 1), 1), ('g333', 'xyz', (1, 1, 1), 1),
                   ('g432', 'yz', (1, 1, 0), 1), ('g432', 'xz', (2, 0, 0), 1)]
     else:
-        dcases = [(g, dn, cell, 3 if sum(map(abs, DIRS[dn][0])) == 1 else 2)
+        # span (nodes the second electrode may lie beyond) per direction:
+        # 3 along an axis, 2 for the two-axis directions, 1 for the
+        # three-axis ones (with span 2 those have 1400-2000+ crossing
+        # classes per case and exhausted the 2400 s path budget when the
+        # tier ran next to other checks => inconclusive)
+        def span(dn):
+            return {1: 3, 2: 2, 3: 1}[sum(1 for v in DIRS[dn][0] if v)]
+        dcases = [(g, dn, cell, span(dn))
                   for g in ('g333', 'g432')
                   for dn in DIRS for cell in ((0, 0, 0), (1, 1, 0),
                                               (1, 0, 1))
